@@ -54,6 +54,10 @@ func genC19(t *rapid.T) *c19Case {
 	if c.Opts.Members >= 2 && rapid.IntRange(0, 3).Draw(t, "leave") == 0 {
 		c.Opts.Replicas = 2
 		c.Opts.FastDetect = true
+		// no background routing push / balancer / janitor: after the leave the fragments stay where they are, so
+		// that Destroy meets the state a leave produces and not a fragment move in flight (that race is the
+		// finding recorded under C02)
+		c.Opts.Stepped = true
 	}
 	n := rapid.IntRange(5, 40).Draw(t, "nops")
 	if c.Opts.FastDetect {
@@ -126,6 +130,7 @@ func runC19(c *c19Case) (v *vcommon.Violation, nontrivial, inconclusive bool) {
 		models[i] = map[string]string{}
 		tokens[i] = map[string][]byte{}
 	}
+	afterLeave := false
 	for i, op := range c.Ops {
 		if c.LeaveAt == i && len(cl.live()) >= 2 {
 			cl.stop(cl.live()[len(cl.live())-1])
@@ -136,7 +141,14 @@ func runC19(c *c19Case) (v *vcommon.Violation, nontrivial, inconclusive bool) {
 			// and until the new primary owner's own former backup fragment has moved a key may be invisible.
 			// What survives a stop is C02's subject. Here the variant only needs the state a leave produces, so
 			// it waits until every DMap reads as its model says (and gives the case up if that does not happen).
-			readsOK := false
+			if co := cl.coordinator(); co != nil {
+				co.db.rt.UpdateEagerly()
+				if err := cl.waitSettled(20 * time.Second); err != nil {
+					return nil, nontrivial, true
+				}
+			}
+			afterLeave = true
+			readsOK := c.Opts.Stepped // stepped members: nothing moves, nothing to wait for (reads are not issued below)
 			for dl := time.Now().Add(6 * time.Second); !readsOK && time.Now().Before(dl); {
 				readsOK = true
 				for d2, name2 := range names {
@@ -156,6 +168,12 @@ func runC19(c *c19Case) (v *vcommon.Violation, nontrivial, inconclusive bool) {
 			if !readsOK {
 				return nil, nontrivial, true
 			}
+		}
+		if afterLeave && c.Opts.Stepped && (op.Op == "get" || (op.Op == "scan" && len(models[op.D]) > 0)) {
+			// without a balancer a key whose primary owner left stays on its backup copy; what Get and Scan make of
+			// that is C02's and C12's business. A scan of a DMap that was destroyed after the leave is kept: it must
+			// be empty.
+			continue
 		}
 		if c.LeaveAt >= 0 && i >= c.LeaveAt && op.Op != "destroy" && op.Op != "scan" && op.Op != "get" {
 			// After the leave only Destroy, scans and reads are issued: writes and deletes that race with the
@@ -344,6 +362,27 @@ func runC19(c *c19Case) (v *vcommon.Violation, nontrivial, inconclusive bool) {
 			}
 			models[op.D] = map[string]string{}
 			tokens[op.D] = map[string][]byte{}
+		}
+		if afterLeave && c.Opts.Stepped {
+			// white box instead of reads (see above): an operation on one DMap must not make the copies of another
+			// DMap's keys disappear
+			for d2, name2 := range names {
+				if d2 == op.D {
+					continue
+				}
+				for k2 := range models[d2] {
+					n := 0
+					for _, mem := range cl.live() {
+						if mem.db.dmap.VerifCheck(name2, k2, partitions.PRIMARY) || mem.db.dmap.VerifCheck(name2, k2, partitions.BACKUP) {
+							n++
+						}
+					}
+					if n == 0 {
+						return bad("interference:"+op.Op, "afterwards no member stores a copy of DMap %q key %q any more; its model holds %q", c.Names[d2], k2, models[d2][k2]), nontrivial, false
+					}
+				}
+			}
+			continue
 		}
 		// after every step: every other DMap still holds exactly its model (read through the owner)
 		for d2, name2 := range names {
